@@ -262,6 +262,16 @@ def check_case(case) -> Obs:
                 obs.bad("C17/autosave-differs", "auto-save and explicit save wrote different bytes")
             if str(wl) != "\n".join(list(wl)):
                 obs.bad("C17/str", "str(worklist) != newline-joined records")
+            if mode == "with" and os.path.exists(other):
+                # an explicit save to another file does not move the worklist: the next with-block saves to the configured path
+                other_bytes = open(other, "rb").read()
+                with wl:
+                    wl.append("C;after the explicit save")
+                _check_file(obs, path, ["C;after the explicit save"], "with-block after an explicit save to another file")
+                if open(other, "rb").read() != other_bytes:
+                    obs.bad("C17/explicit-file-rewritten", "leaving the with-block rewrote the file of an earlier explicit save() instead of the configured path")
+                records = records or ["C;after the explicit save"]
+                obs.cls("with-after-explicit-save")
         if not records:
             obs.cls("empty-worklist")
         if any(ord(ch) > 127 for r in records for ch in r):
